@@ -239,6 +239,7 @@ pub struct ChildOutcome {
 	pub hashes: Vec<(u64, String)>,
 	pub hang_at: Option<u64>,
 	pub crash: Option<(u64, String)>,
+	pub harness_error: Option<String>,
 }
 
 fn spawn_reader(child: &mut Child, state: Arc<ChildState>) -> std::thread::JoinHandle<()> {
@@ -330,6 +331,7 @@ fn supervise(
 		hashes: Vec::new(),
 		hang_at,
 		crash: None,
+		harness_error: None,
 	};
 	for (tag, idx, rest) in state.lines.lock().unwrap().drain(..) {
 		match tag {
@@ -352,7 +354,10 @@ fn supervise(
 	if hang_at.is_none() && !stop.load(Ordering::SeqCst) {
 		if let Some(status) = status {
 			let code = status.code();
-			if code != Some(0) && code != Some(1) {
+			if code == Some(2) {
+				let tail: String = stderr_text.lines().rev().take(4).collect::<Vec<_>>().join(" | ");
+				out.harness_error = Some(format!("worker reported a harness error: {tail}"));
+			} else if code != Some(0) && code != Some(1) {
 				let idx = state.last_index.load(Ordering::SeqCst);
 				let tail: String = stderr_text.lines().rev().take(6).collect::<Vec<_>>().join(" | ");
 				out.crash = Some((idx, format!("worker ended with {status:?}: {tail}")));
@@ -393,6 +398,9 @@ pub fn run_case_in_child_opts(check_id: &str, case: &Value, hang_cpu_secs: f64, 
 	let stop = AtomicBool::new(false);
 	let outcome = supervise(child, hang_cpu_secs, &stop);
 	let _ = std::fs::remove_file(&path);
+	if let Some(e) = outcome.harness_error {
+		return Err(e);
+	}
 	if outcome.hang_at.is_some() {
 		return Ok((
 			Some(json!({"oracle": "watchdog", "signature": "hang", "detail": format!("case consumed more than {hang_cpu_secs} CPU-seconds without finishing")})),
@@ -539,7 +547,7 @@ pub fn run_batch(check: &dyn Check, opts: &BatchOptions) -> BatchResult {
 		let stop = stop.clone();
 		handles.push(std::thread::spawn(move || {
 			let o = supervise(child, hang_secs(), &stop);
-			if o.violation.is_some() || o.hang_at.is_some() || o.crash.is_some() {
+			if o.violation.is_some() || o.hang_at.is_some() || o.crash.is_some() || o.harness_error.is_some() {
 				stop.store(true, Ordering::SeqCst);
 			}
 			o
@@ -552,6 +560,10 @@ pub fn run_batch(check: &dyn Check, opts: &BatchOptions) -> BatchResult {
 	let mut first_violation: Option<(u64, Value, Value)> = None; // index, case, violation
 	let mut known_cases: Vec<(u64, Value)> = Vec::new();
 	for o in &outcomes {
+		if let Some(e) = &o.harness_error {
+			eprintln!("harness error: {e}");
+			return BatchResult { exit_code: 2, hashes };
+		}
 		if let Some(s) = &o.stats {
 			agg.merge_json(s);
 		}
